@@ -29,6 +29,7 @@ PROPS = {
             J("gf2p16", "C08_mod_lemmas", bound="all integers 0 <= a,b < 65535 (integer theory)"),
             J("gf2p16", "C08_T_times", bound="all 2^32 operand pairs; tables abstracted to uninterpreted functions constrained by the instances of the homomorphism H and log-inverts-exp at the operands", must_reach=["nonzero"]),
             J("gf2p16", "C08_ops_stateless", race=True, bound="two goroutines calling Times / Div / Inverse / Pow on symbolic operands: no memory cell written by one is touched by the other (the operations keep no package-level state)"),
+            J("gf2p16", "C08_pow_twice", bound="two Pow calls in one process, bases 0, 1, 3, 5, 0x405, 0x1235, first exponent 5 / 65541 / 65543 / 0x04000009, second 5 / 7 / 9 / 65543: the second result is the p-fold product"),
             J("gf2p16", "C08_T_inverse", bound="all non-zero elements; same abstraction"),
             J("gf2p16", "C08_T_div", bound="all operand pairs with non-zero divisor; same abstraction", must_reach=["nonzero"]),
             J("gf2p16", "C08_T_pow", bound="all bases, all exponents 0..2^32-1; integer mode with no-overflow obligations on every operation"),
@@ -58,6 +59,7 @@ PROPS = {
             J("gf2p16", "C09_exported_muladd", bound="every even length 0..70 bytes"),
             J("gf2p16", "C09_platformLE", bound="0..19 words through the unsafe []T<->[]byte views"),
             J("gf2p16", "C09_inplace", bound="MulByteSliceLE(c, buf, buf): every even length 0..70 bytes, symbolic constant, contents and SSSE3 flag"),
+            J("gf2p16", "C09_muladd_thrice", bound="three MulAndAddByteSliceLE calls in one process with lengths (62,34,62), (34,62,34), (40,36,44), (6,2,4), symbolic constants, contents and SSSE3 flag (sync.Pool modelled as a LIFO free list)"),
             J("gf2p16", "C09_inplace_row", bound="mulSlice(c, row, row) as called by Matrix.scaleRow: 0..35 elements"),
             J("gf2p16", "C09_asm_replay", kind="asmsym", bound="the four production kernels of slice_amd64.s as assembled by go tool asm: every length allowed by the callers (scalar: even, >= 2; SSSE3: >= 32; < 2^62), every constant, every content, symbolic base addresses, in != out and in == out; loops cut by induction on the iteration number"),
             J("gf2p16", "C09_dispatch_mul", tier="thorough", tag="@z3-new", args=["-solver", "z3-new"], bound="same harness decided by z3 5.1.0 (cross-solver check)"),
@@ -76,6 +78,7 @@ PROPS = {
             J("gf2p16", "C11_times", bound="2x2 by 2x2 fully symbolic"),
             J("gf2p16", "C11_fill", bound="NewMatrixFromFunction and NewIdentityMatrix for dimensions 1x1, 3x5, 33x31, 129x128, 130x127, 200x100, 257x3, 263x1, 300x2 (every element, symbolic base value)"),
             J("gf2p16", "C11_wide_swap", bound="2x2 row exchange with a right-hand side of 300 columns (symbolic at columns 0, 1, 255, 256, 257, 299): result, N unchanged"),
+            J("gf2p16", "C11_reduce_twice", bound="two row reductions in one process (right-hand sides of 1..3 and then 2 / 5 / 9 columns, row exchange needed)"),
         ],
     ),
     "C07": dict(
@@ -83,6 +86,7 @@ PROPS = {
         assumptions=["assembly kernels used through their C09 contract; T.Times/Inverse/Pow run on the real (dumped) tables with concrete operands"],
         jobs=[
             J("rsec16", "C07_cauchy_xy", bound="all data/parity counts with d+p <= 65535, all index pairs (symbolic)"),
+            J("rsec16", "C07_reconstruct_twice", bound="one coder value (Cauchy and PAR2-Vandermonde 2+3), two ReconstructData calls with the same missing data shard and different parity shards available"),
             J("rsec16", "C07_generators", bound="all 32768 generators (constant folding over the real init against a specification power)"),
             J("rsec16", "C07_vandermonde_elem", bound="3x3 block"),
             J("rsec16", "C07_cauchy", bound="d 1..3, p 1..2, every subset of missing data and parity shards, shard length 2..4 bytes symbolic, goroutines 1..2", must_reach=["not-enough", "reconstructed"]),
@@ -102,6 +106,7 @@ PROPS = {
             J("rsec16", "C12_params_out", bound="same with min 1, divisor 1 (applyMatrixParallelOut)"),
             J("rsec16", "C12_partition_symbolic", race=True, bound="the real applyMatrixParallelData and worker closures on buffers of symbolic even length 2..2^61 (no contents), 1..4 requested goroutines: worker ranges consecutive, non-empty, covering; WaitGroup count = workers"),
             J("rsec16", "C12_coder_goroutines", race=True, bound="Cauchy coder 2+2, shard lengths 2,16,30,32,34,48,62,64,66 with symbolic contents, 2..5 goroutines against the single-goroutine coder: GenerateParity and ReconstructData of both data shards"),
+            J("rsec16", "C12_parallel_twice", race=True, bound="two applyMatrixParallelData calls in one process with different shard lengths (32/34, 34/32, 16/48, 64/66, 20/36), 2..4 goroutines: each equals the single-threaded result"),
             J("rsec16", "C12_parallel_data", race=True, bound="shard length 2..24 bytes, goroutines 1..4, 2x2 symbolic matrix, symbolic data, forward and reverse task order"),
             J("rsec16", "C12_parallel_data_long", race=True, bound="shard length 26..64 bytes, goroutines 1..6 (2..4 workers, clamped last chunk)"),
             J("rsec16", "C12_parallel_out", race=True, bound="shard length 2..6 bytes, goroutines 1..3"),
@@ -152,6 +157,7 @@ PROPS = {
             J("par2", "C05_create_names", bound="2..3 files whose names have different lengths (not multiples of 4, sub-directories, paths of 256 / 257 / 312 bytes), symbolic contents of 1..3 bytes (both id orders), 1 block"),
             J("par2", "C05_index_names", bound="index base names s, data, x2, a., par, set.v1, arp2.par2; 1 file of 3 symbolic bytes, 3 blocks: paths written, neighbouring file untouched, Verify finds every block"),
             J("par2", "C05_big_packets", timeout=1500, args=["-max-steps", "600000000"], bound="packet bodies around 1 KiB: slice sizes 988 / 992 / 1000 / 2000; 48 / 49 / 50 slices; 61 / 62 / 63 files: packet MD5 of every packet written"),
+            J("par2", "C05_create_thrice", timeout=1500, bound="three Create runs of different shapes (5x4, 10x2, 8x4 and 2x5, 6x1, 4x5 slices x blocks) in one process; the third judged by the independent reader and Reed-Solomon oracle"),
             J("par2", "C05_sixteenk", bound="file lengths 16383, 16384, 16385"),
             J("par2", "C05_volume_layout", bound="1..40 recovery blocks"),
         ],
@@ -178,6 +184,7 @@ PROPS = {
             J("par2", "C16_locmap", must_reach=["hit"], bound="the real checksumShardLocationMap.put/get with 2..3 registered slices of 8 symbolic bytes, arbitrary (data-independent) 32-bit CRC values incl. equal CRCs with different content, one symbolic query window"),
             J("par2", "C16_search_arbitrary", bound="1 file of 4/5/8 bytes, slice 4; insertion of 1..4 bytes, truncation at every length, appended bytes, one overwritten slice"),
             J("par2", "C16_two_files", bound="2 files of 4+5 bytes swapped, or damaged independently (every structured damage kind on the first, 3 kinds on the second): usable >= slices standing alone in some surviving file"),
+            J("par2", "C16_two_slice_sizes", bound="two one-file sets of 3 slices with slice sizes (4,8), (8,4), (4,64), (12,8) created, shifted by one inserted byte and verified one after the other in one process"),
             J("par2", "C16_big_copy", timeout=1500, args=["-max-steps", "2000000000"], bound="two identical files of 65535 / 65536 / 65537 / 131072 concrete bytes, slice size 16384, 1 block, either copy lost"),
             J("par2", "C16_search_sym", tier="thorough", bound="1 file of 4/5 fully symbolic bytes; insertion, truncation, append; oracle = slices surviving at a non-overlapped offset", timeout=3000),
         ],
@@ -226,6 +233,7 @@ PROPS = {
         jobs=[
             J("par2", "C14_step", bound="1 file of 4/5/8 bytes, 1 block present or deleted, 7 damage kinds incl. arbitrary content; Repair, then Verify and a second Repair", must_reach=["failed", "succeeded"]),
             J("par2", "C14_many_identical", timeout=1500, args=["-max-steps", "600000000"], bound="a file of 255 / 256 / 257 / 300 identical slices plus a 3-byte file, 1 block; intact, or the second file lost: Repair, Verify, second Repair"),
+            J("par2", "C14_big_then_damage", timeout=1500, bound="16388-byte file, slice size 8192: Verify of the intact set, then one byte changed in place at offset 100 / 16384 / 16387, Verify and Repair again in the same process"),
             J("par1", "C04_roundtrip", bound="PAR1: Repair from every damage state of the C04 scenario leaves only originals (the C04 harness)"),
         ],
     ),
@@ -251,6 +259,7 @@ PROPS = {
             J("par2", "C17_map_order", bound="2 files, 3 blocks, every iteration order of every map ranged over during the second run (symbolic permutation)"),
             J("par2", "C17_paths", bound="one file in a sub-directory: absolute vs relative, ./ and // spellings, working directory = set directory, its parent, a sibling, a sub-directory"),
             J("par1", "C17_par1_paths", bound="PAR1 Create of 2 files (2 and 3 symbolic bytes), 2 volumes: 6 spellings incl. mixed relative/absolute, ./ and doubled separators, working directory / and /d, repeated run; input order fixed"),
+            J("par2", "C17_create_changed", timeout=1500, bound="Create, one symbolic change at offset 16386 of the 16388-byte file, Create again in the same process: whole-file MD5 in the new index, the new set verifies clean"),
         ],
     ),
     "C18": dict(
